@@ -240,9 +240,9 @@ class Explorer:
         self.stats["display_checks"] += len(exp)
         for k, v in exp.items():
             got = disp.get(k, 0)
-            if got != v:
+            if (got not in v) if isinstance(v, (tuple, set, frozenset)) else (got != v):
                 self._viol("display", (label, k), hist, ev,
-                           "%s row %d type %d shows %d, reference says %d" % (k[0], k[1], k[2], got, v), s)
+                           "%s row %d type %d shows %d, reference says %s" % (k[0], k[1], k[2], got, v), s)
                 return
 
 
